@@ -439,8 +439,14 @@ fn scenario(seed: u64, want_model: bool) -> Result<Out, Fail> {
 			// detour positions for styles 7, 8
 			let mut detour_at: BTreeSet<usize> = BTreeSet::new();
 			if style == 7 || style == 8 {
+				// mostly where it matters: at blocks that carry transactions
+				let busy: Vec<usize> = (0..chain.len()).filter(|i| !chain[*i].txs.is_empty()).collect();
 				for _ in 0..(1 + r2.below(3)) {
-					detour_at.insert(r2.below(chain.len() as u64) as usize);
+					if !busy.is_empty() && r2.below(4) != 0 {
+						detour_at.insert(busy[r2.below(busy.len() as u64) as usize]);
+					} else {
+						detour_at.insert(r2.below(chain.len() as u64) as usize);
+					}
 				}
 			}
 			for (bi, b) in chain.iter().enumerate() {
@@ -483,6 +489,13 @@ fn scenario(seed: u64, want_model: bool) -> Result<Out, Fail> {
 							// the reorg branch of best_block_updated alone must retract the fork
 							c.bb(&fp)?;
 							c.conf.retain(|_, h| *h <= fp.height);
+							let left: Vec<_> = c.mon.get_relevant_txids().into_iter().filter(|(_, h, _)| *h > fp.height).collect();
+							if !left.is_empty() {
+								return fail(
+									"best_block_updated back to the fork point left confirmations above it",
+									format!("node {} fork point {}: {:?}", node, fp.height, left),
+								);
+							}
 						}
 						loop {
 							let stale: Vec<Txid> = c.mon.get_relevant_txids().into_iter().filter(|(_, _, h)| h.map(|h| fork_hashes.contains(&h)).unwrap_or(false)).map(|x| x.0).collect();
